@@ -897,7 +897,15 @@ fn c02(cx: &Ctx, o: &mut Outcome) {
             continue;
         }
         if cx.complete(i).is_err() {
-            o.inconclusive = Some("a connection got no complete response (C04/C05)".into());
+            // a clean transport and a target the documented lookup decides: silence is not an answer
+            let lk = model::lookup(&cx.fs, &cx.reqs[i].target);
+            if sc_conn.faults.is_clean() && !lk.allowed.is_empty() && cx.r.conns[i].read_calls > 0 {
+                o.evaluated = true;
+                let cause = cx.panic_for_conn(i).map(|p| (format!(".{}", panic_class(p)), format!(" ({})", panic_text(p)))).unwrap_or((".dropped".into(), String::new()));
+                o.verdicts.push(v("C02", format!("no_response{}", cause.0), format!("GET {} ({}): no complete response{}", cx.reqs[i].target, lk.note, cause.1), Some(i)));
+            } else {
+                o.inconclusive = Some("a connection got no complete response (C04/C05)".into());
+            }
             continue;
         }
         if check_lookup(cx, "C02", i, o) {
